@@ -47,6 +47,7 @@ def main():
     E.advanced_reads(run)
     E.writes(run)
     E.combine_and_shape(run)
+    E.copy_independence(run)
     debug_dump(run)
     run.finish("proof")
 
